@@ -625,8 +625,18 @@ def replay(prop, path, seed):
     ctx = Ctx(prop or head.get("replay_of", "C00"), "quick", seed)
     fam = head.get("family", "spline")
     ctx.family, ctx.tracespec, ctx.env_flags = fam, head.get("tracespec", "TraceSpline"), head.get("env", {})
-    exe = {"spline": vbuild.spline_replay}[fam]()
-    replay_and_validate(ctx, exe, [cmds], ctx.tracespec, ctx.env_flags, label="r")
+    builders = {"spline": vbuild.spline_replay, "ppoly": vbuild.ppoly_replay, "opt": vbuild.opt_replay, "timemap": vbuild.timemap_replay}
+    if fam not in builders:
+        print("replay: unknown family %r in %s" % (fam, path))
+        return 3
+    exe = builders[fam]()
+    crash_prop = ctx.prop if fam == "opt" else None
+    replay_and_validate(ctx, exe, [cmds], ctx.tracespec, ctx.env_flags, label="r", crash_prop=crash_prop)
+    if fam == "opt" and any(c.get("op") == "evaluate_mt" for c in cmds):
+        tsan = vbuild.opt_replay(extra_flags=["-fsanitize=thread", "-O1", "-g"], link_flags=["-fsanitize=thread"], name="opt_replay_tsan")
+        run_tsan(ctx, tsan, [cmds], jobs=1)
+    for m in ctx.infra:
+        print("INFRASTRUCTURE: " + m[:600])
     for d in ctx.devs:
         print("DEVIATION prop=%s code=%s info=%s" % (d["prop"], d["code"], json.dumps(d.get("info"))))
     print("replay: %d deviations" % len(ctx.devs))
